@@ -72,3 +72,7 @@ def c_sarabandi(c):
     qq = _call(c, c.p['how'], R, 'sarabandi')
     _post(c, qq, R)
     c.observe('q', qq)
+
+NOT_COVERED = ["itzhack versions 1-3 (np.linalg.eig: needs the eigen-lemmas of DESIGN 3/C02; not yet discharged)",
+               "float-regime clauses (within 1e-12 of identity / of a half-turn) beyond their exact real limits"]
+EXCLUSIONS = ["closed-form methods (chiaverini, hughes, sarabandi): |q_w| >= 5e-7, i.e. rotation angle <= pi - 1e-6 rad (the property's own bound)"]
